@@ -44,12 +44,18 @@ def replay(entry, repo_root):
     if r.get('kind') == 'case':
         res = _run_case(r['case'])
         return res['what'] if res else None
+    if r.get('kind') == 'modecase':
+        res = _run_mode_case(r['case'])
+        return res['what'] if res else None
     return None
 
 
-def _lib_render(pa, pb, opt, from_mime=None, to_mime=None, join=False):
+def _lib_render(pa, pb, opt, from_mime=None, to_mime=None, join=False, mode='full', fmt=None):
+    """The library route for what the command documents: trees built with the file types of the two positions, rendered
+    with the default formatter of --format if given, otherwise of the FIRST file's type; `mode` is 'full' (diff),
+    '-e' (one line per edit of get_all_edits) or '-d' (edit digest: ancestors' context, ' -> ', the edit)."""
     import graphtage
-    from graphtage.printer import Printer
+    from graphtage.printer import Printer, Fore
     ff = graphtage.get_filetype(pa, from_mime)
     tf = graphtage.get_filetype(pb, to_mime)
     options = graphtage.BuildOptions(**opt)
@@ -59,12 +65,82 @@ def _lib_render(pa, pb, opt, from_mime=None, to_mime=None, join=False):
     with printer:
         a = ff.build_tree(pa, options)
         b = tf.build_tree(pb, options)
-        d = a.diff(b)
-        ff.get_default_formatter().print(printer, d)
-        had = any(any(e.has_non_zero_cost() for e in n.edit_list) for n in d.dfs())
+        formatter = (graphtage.FILETYPES_BY_TYPENAME[fmt] if fmt is not None else ff).get_default_formatter()
+        had = False
+        if mode == '-e':
+            for edit in a.get_all_edits(b):
+                printer.write(str(edit))
+                printer.newline()
+                had = had or edit.has_non_zero_cost()
+        elif mode == '-d':
+            for ancestors, edit in a.get_all_edit_contexts(b):
+                for i, node in enumerate(ancestors):
+                    if node.parent is not None:
+                        node.parent.print_parent_context(printer, for_child=node)
+                    if i == len(ancestors) - 1:
+                        with printer.color(Fore.BLUE):
+                            printer.write(" -> ")
+                        formatter.print(printer, edit)
+                printer.newline()
+                had = had or edit.has_non_zero_cost()
+        else:
+            d = a.diff(b)
+            formatter.print(printer, d)
+            had = any(any(e.has_non_zero_cost() for e in n.edit_list) for n in d.dfs())
     printer.write('\n')
     printer.close()
     return buf.getvalue(), (1 if had else 0)
+
+
+def _mode_cases():
+    """Output modes x --format x file types of the two positions (same type and cross type)."""
+    import yaml
+    doc_a, doc_b = {"a": [1, 2, "x y"], "b": "d", "c": True}, {"a": [1, 3, "x z"], "b": "e", "c": True}
+    texts = {'json': (json.dumps(doc_a), json.dumps(doc_b), '.json'), 'yaml': (yaml.safe_dump(doc_a), yaml.safe_dump(doc_b), '.yml')}
+    cases = []
+    for ft in ('json', 'yaml'):
+        for tt in ('json', 'yaml'):
+            for mode in ('full', '-e', '-d'):
+                for fmt in (None, 'json', 'yaml'):
+                    for how in ('suffix', 'flags'):
+                        cases.append({'kind': 'mode', 'ft': ft, 'tt': tt, 'mode': mode, 'fmt': fmt, 'how': how,
+                                      'a': texts[ft][0], 'b': texts[tt][1],
+                                      'sa': texts[ft][2] if how == 'suffix' else '.dat', 'sb': texts[tt][2] if how == 'suffix' else '.dat'})
+    return cases
+
+
+MIMES = {'json': 'application/json', 'yaml': 'application/x-yaml'}
+
+
+def _run_mode_case(case):
+    _ensure_mimetypes()
+    tf = gt.TempFiles()
+    try:
+        pa, pb = tf.write(case['a'], case['sa']), tf.write(case['b'], case['sb'])
+        argv = [pa, pb, '--no-status', '--no-color']
+        fm = tm = None
+        if case['how'] == 'flags':
+            argv += [f"--from-{case['ft']}", f"--to-{case['tt']}"]
+            fm, tm = MIMES[case['ft']], MIMES[case['tt']]
+        if case['mode'] != 'full':
+            argv.append(case['mode'])
+        if case['fmt']:
+            argv += ['--format', case['fmt']]
+        rc, out, err, exc = gt.run_cli(argv)
+        try:
+            lib_out, lib_rc = _lib_render(pa, pb, {}, fm, tm, mode=case['mode'], fmt=case['fmt'])
+        except Exception as e:
+            lib_out, lib_rc = f"<library raised {type(e).__name__}: {e}>", None
+            if exc is not None and type(exc) is type(e):
+                return None     # both routes fail alike (rendering defects are C13's business)
+        if exc is not None or rc != lib_rc or out != lib_out:
+            desc = {k: case[k] for k in ('ft', 'tt', 'mode', 'fmt', 'how')}
+            return {'input': desc, 'what': f"mode case {desc}: CLI (rc={rc}, exc={exc!r}) disagrees with the library route "
+                                           f"(rc={lib_rc}); CLI out={out[:90]!r} library out={lib_out[:90]!r}",
+                    'class': f"c14-mode:{case['mode']}", 'replay': {'kind': 'modecase', 'case': case}}
+        return None
+    finally:
+        tf.cleanup()
 
 
 def _ensure_mimetypes():
@@ -172,11 +248,16 @@ def bounded(tier, seed, repo_root):
     for r in pmap(_run_case, cases, repo_root):
         if r:
             fails.append(r)
+    mcases = _mode_cases()
+    for r in pmap(_run_mode_case, mcases, repo_root):
+        if r:
+            fails.append(r)
     return [{
         'name': 'C14.cli-vs-library', 'bound': f"{n} seeded document pairs (<=3 nodes) x 9 option combinations; alias pairs "
         f"-k/--dict-strategy none, -j/-jl -jd, --from-json/--from-mime, --to-json/--to-mime; {len(cases)} explicit-type cases "
-        f"with misleading file names for both positions",
-        'evaluations': n * 9 + len(cases), 'distinct_nontrivial': len({D.key(j[0]) + D.key(j[1]) for j in jobs}) + len(cases),
+        f"with misleading file names for both positions; {len(mcases)} mode cases: {{full, -e, -d}} x --format {{none, json, yaml}} x "
+        f"file types of the two positions {{json, yaml}}^2 x {{by suffix, by --from-/--to- flags}}",
+        'evaluations': n * 9 + len(cases) + len(mcases), 'distinct_nontrivial': len({D.key(j[0]) + D.key(j[1]) for j in jobs}) + len(cases),
         'exhaustive': False,
         'rule': 'document pair x options -> CLI stdout/exit status equals library rendering; equivalent spellings give '
                 'identical stdout and status; explicit type flags decide the parser for that position',
